@@ -33,7 +33,7 @@ EDITS = [
     ("set", "n", 0), ("del", "n"),
     ("move",), ("clone",),
 ]
-DESTS = ["absent", "initialised", "handle_only", "empty_dir"]
+DESTS = ["absent", "initialised", "handle_only", "empty_dir", "file"]
 PAYLOADS = ["nothing", "doc", "files+doc"]
 PROVENANCE = ["sp", "id", "copy-edit-original", "copy-edit-copy", "deepcopy", "pickle"]
 
@@ -161,6 +161,11 @@ def evaluate(item):
                 dest_proj.open_job(new)
             elif dest == "empty_dir":
                 os.makedirs(os.path.join(dest_proj_path, "workspace", new_id))
+            elif dest == "file":
+                # the destination id is occupied by something that is not a directory: the operation cannot succeed
+                os.makedirs(os.path.join(dest_proj_path, "workspace"), exist_ok=True)
+                with open(os.path.join(dest_proj_path, "workspace", new_id), "w") as f:
+                    f.write("not a job")
         elif dest != "absent":
             return {"skip": "destination variants need a destination id different from the source", "viol": [], "n": 0}
 
@@ -238,6 +243,15 @@ def evaluate(item):
             unchanged("DestinationExistsError")
         elif op == "clone" and dest == "empty_dir" and isinstance(exc, DestinationExistsError):
             unchanged("clone refused onto an existing empty directory")
+        elif dest == "file":
+            if exc is None:
+                bad("occupied-destination-not-refused", f"{op} onto an id occupied by a regular file returned normally", "an exception", "ok")
+            unchanged("an operation refused because the destination id is occupied by a file")
+            try:
+                signac.Project(pp).open_job(id=old_id).statepoint()
+            except Exception as e:  # noqa
+                bad("source-unreadable-after-refused-operation", f"after the refused {op} the source job cannot be opened: "
+                    f"{type(e).__name__}: {e}")
         elif op in ("move", "clone") and False:
             pass
         else:
@@ -340,7 +354,7 @@ def run(ctx):
     tot = engine_i.run_items(ctx, universe(ctx.tier), evaluate, chunk=16)
     engine_i.fill_report(report, tot, rule=(
         "full product of 4 state points x 26 edits (key set incl. same value and 1 -> 1.0 -> True, delete, nested and "
-        "list edits, whole assignment, update_statepoint x overwrite, move, clone) x 4 destination states x 3 payloads "
+        "list edits, whole assignment, update_statepoint x overwrite, move, clone) x 5 destination states x 3 payloads "
         "x 6 handle provenances; every case executed once on the real API between byte snapshots of both projects; "
         "distinct_nontrivial = distinct (operation, outcome, destination, payload, provenance, id changed?)"),
         extra={"bounds": {"statepoints": len(OLD), "edits": len(EDITS)},
